@@ -177,3 +177,31 @@ fn parse_an_b_len4() {
 fn parse_an_b_len7() {
   check_parse::<7>();
 }
+
+/// C11: numbers that do not fit i32 (10-11 digits) are a syntax error, never an overflow
+#[kani::proof]
+#[kani::unwind(13)]
+fn parse_an_b_len11() {
+  let mut buf = [0u8; 11];
+  let len: usize = kani::any();
+  kani::assume(len <= 11);
+  for i in 0..11 {
+    let k: u8 = kani::any();
+    kani::assume(k < 3);
+    buf[i] = [b'9', b'1', b'n'][k as usize];
+  }
+  let s = unsafe { std::str::from_utf8_unchecked(&buf[..len]) };
+  let got = parse_an_b(s); // must not panic / overflow
+  if let Ok(p) = &got {
+    // an accepted all-digit string is a number that fits
+    let mut all_digits = len > 0;
+    let mut v: i64 = 0;
+    let mut i = 0;
+    while i < len {
+      if buf[i] == b'n' { all_digits = false; } else { v = v * 10 + (buf[i] - b'0') as i64; }
+      i += 1;
+    }
+    if all_digits { assert!(v <= i32::MAX as i64 && p.offset as i64 == v && p.step_size == 0); }
+  }
+  std::mem::forget(got);
+}
